@@ -2,6 +2,7 @@ package sm
 
 import (
 	"bytes"
+	"context"
 	"encoding/json"
 	"fmt"
 	"os"
@@ -14,6 +15,8 @@ import (
 	abcitypes "github.com/tendermint/tendermint/abci/types"
 
 	"github.com/shutter-network/rolling-shutter/rolling-shutter/app"
+	"github.com/shutter-network/rolling-shutter/rolling-shutter/cmd/chain"
+	"github.com/shutter-network/rolling-shutter/rolling-shutter/medley/service"
 
 	"verif/harness/core"
 	"verif/harness/tlc"
@@ -65,7 +68,27 @@ type PersistResult struct {
 	Sample     any
 }
 
+type nopRunner struct{}
+
+func (nopRunner) Go(f func() error)                       {}
+func (nopRunner) StartService(s ...service.Service) error { return nil }
+func (nopRunner) Defer(f func())                          {}
+
+// startUp runs the chain command's real start-up path on the tendermint root that contains
+// data/shutter.gob (no node key there, so the path stops before a node is created); whatever that
+// path does to the state file and to a leftover temp file happens before the file is loaded and
+// projected. The returned error is the start-up error (nil is impossible without a node key).
+func startUp(path string) error {
+	root := filepath.Dir(filepath.Dir(path))
+	ctx, cancel := context.WithTimeout(context.Background(), 20*time.Second)
+	defer cancel()
+	return chain.VerifStart(ctx, root, nopRunner{})
+}
+
 func loadAbs(u *Universe, path string) (string, error) {
+	if serr := startUp(path); serr == nil {
+		return "", fmt.Errorf("chain start-up path returned without an error although there is no node key")
+	}
 	a, err := app.LoadShutterAppFromFile(path)
 	if err != nil {
 		return "", err
@@ -103,7 +126,11 @@ func CheckPersistFaults(c *core.Ctx, consts Consts) (*PersistResult, *tlc.Result
 		u.Exec(r, "tx", tx)
 	}
 	u.Exec(r, "end", Tx{})
-	path := filepath.Join(dir, "shutter.gob")
+	// tendermint root layout: <root>/data/shutter.gob is what cmd/chain loads at start-up
+	if err := os.MkdirAll(filepath.Join(dir, "data"), 0o755); err != nil {
+		return nil, nil, err
+	}
+	path := filepath.Join(dir, "data", "shutter.gob")
 	r.App.Gobpath = path
 	if err := r.App.PersistToDisk(); err != nil {
 		return nil, nil, fmt.Errorf("initial save failed: %v", err)
